@@ -1,6 +1,7 @@
 import Driver.Codec
 import Txtpp.Model.Text
 import Txtpp.Model.Tag
+import Txtpp.Model.Project
 open Driver Txt
 
 def tyName : DType → String
@@ -45,6 +46,44 @@ def tagLines (le : Str) (seq : Bool) (t0 : TagState) : List Str → TagState →
 
 def splitList (s : String) : List String := if s = "-" then [] else s.splitOn ","
 
+def parsePath (s : Str) : Path := if s.isEmpty then [] else splitOn '/' s
+
+def modeOf : String → Option Mode
+  | "build" => some .build | "needed" => some .inMemory | "clean" => some .clean | "verify" => some .verify | _ => none
+
+def parseTree (entries : List String) : Option FS :=
+  entries.foldlM (fun (fs : FS) (e : String) =>
+    match e.splitOn ":" with
+    | ["d", p] => (unhex p).map (fun p => { fs with dirs := parsePath p :: fs.dirs })
+    | ["f", p, c] =>
+      (match unhex p, unhexBytes c with
+       | some p, some c => some { fs with files := (parsePath p, c) :: fs.files }
+       | _, _ => none)
+    | _ => none) ⟨[], [], [], []⟩
+
+def parseCmds (entries : List String) : Option (List (Str × List (Str × Str))) :=
+  entries.mapM (fun (e : String) =>
+    match e.splitOn "=" with
+    | [t, acts] =>
+      (match unhex t with
+       | none => none
+       | some t =>
+         let as := if acts = "-" then [] else acts.splitOn ";"
+         (as.mapM (fun (a : String) => match a.splitOn ":" with
+            | [k, v] => (unhex v).map (fun v => (k.toList, v))
+            | _ => none)).map (fun as => (t, as)))
+    | _ => none)
+
+def showFS (fs : FS) : String :=
+  let fl := sortStrs (fs.files.map (fun kv => s!"{hex (joinPath kv.1)}:{hexBytes kv.2}"))
+  let tl := sortStrs (fs.touched.map (fun p => hex (joinPath p)))
+  let ll := sortStrs (fs.log.map hex)
+  let j (l : List String) := if l.isEmpty then "-" else ",".intercalate l
+  s!"F={j fl} T={j tl} L={j ll}"
+
+def showVerdict : Verdict → String
+  | .ok => "ok" | .err => "err" | .circular => "circular" | .panic => "panic" | .outOfFuel => "out-of-fuel"
+
 def handle (line : String) : String :=
   match line.trimAscii.toString.splitOn " " with
   | ["detect", l] =>
@@ -71,6 +110,13 @@ def handle (line : String) : String :=
          s!"{a} {tagKeys t} {if b.isEmpty then "-" else ",".intercalate b}"
        | none => "bad-field")
     | _, _ => "bad-field"
+  | ["project", mode, tr, rec, base, inputs, tree, cmds] =>
+    match modeOf mode, unhex base, (splitList inputs).mapM unhex, parseTree (splitList tree), parseCmds (splitList cmds) with
+    | some mode, some base, some inputs, some fs, some cmds =>
+      let cfg : Cfg := { mode := mode, trailing := tr == "t", recursive := rec == "t", baseAbs := base, cmds := cmds }
+      let (v, fs') := runProject cfg fs inputs
+      s!"{showVerdict v} {showFS fs'}"
+    | _, _, _, _, _ => "bad-field"
   | _ => "bad-op"
 
 partial def loop (h : IO.FS.Stream) (out : IO.FS.Stream) : IO Unit := do
